@@ -52,16 +52,16 @@ def main():
             meets += 1
             continue
         info = {"program": shape(c["prog"]), "prog": c["prog"], "order": c["order"], "differs_from_reference": diff_ref[:6]}
-        last = ("1" if c["order"] == 0 else "0") * c["k"]
-        tail_only = ("next" in shape(c["prog"]) and all(d["element"] == last and set(d["as_implemented_model"]) <= set(d["observed"])
-                                                        for d in diff_impl))
+        # fallback attribution (signature + mismatch kind): with a next_rule in the tree the Next selector's
+        # left_evaluated / right_evaluated flags survive from the previous binding, so a binding may ADDITIONALLY show the
+        # conclusion of a branch that did not fire for it (which bindings depends on the enumeration order; the per-element
+        # model does not carry that state). Only extra conclusions on top of the as-implemented prediction are attributed.
+        extra_only = ("next" in shape(c["prog"]) and all(set(d["as_implemented_model"]) < set(d["observed"]) for d in diff_impl))
         if not diff_impl:
             ctx.known_finding("C08-F13", info)
-        elif tail_only:
-            # fallback attribution (signature): with a next_rule in the tree the conclusions of the LAST domain element are not
-            # cleared before the evaluation ends, so that element additionally shows a conclusion of the branch evaluated before
-            info["match"] = "signature(next_rule, extra conclusions on the last domain element only)"
-            ctx.known_finding("C08-F13", info)       # exactly the as-implemented model (stale operands / chain replacement / next de-dup)
+        elif extra_only:
+            info["match"] = "signature(next_rule in the tree, only extra conclusions on top of the as-implemented prediction)"
+            ctx.known_finding("C08-F27", info)       # exactly the as-implemented model (stale operands / chain replacement / next de-dup)
         else:
             info["differs_from_as_implemented_model"] = diff_impl[:6]
             ctx.violation(info, note="conclusions differ from the rule-tree semantics and from the recorded as-implemented behaviour")
